@@ -35,19 +35,19 @@ func (o *Obl) Key() string { return o.Rule + "@" + o.Construct }
 
 // Ctx accumulates what one check run analysed and decided.
 type Ctx struct {
-	Prop    string
-	Tier    string
-	P       *Prog
-	Obls    []*Obl
-	floors  map[string]int
+	Prop          string
+	Tier          string
+	P             *Prog
+	Obls          []*Obl
+	floors        map[string]int
 	floorsApplied bool
-	Funcs   map[string]bool // functions analysed
-	Sites   int             // call sites / instructions inspected
-	Notes   []string
-	Assume  []string
-	Trusted []string
-	Explain string
-	XRef    []string // cross-reference output (never a verdict)
+	Funcs         map[string]bool // functions analysed
+	Sites         int             // call sites / instructions inspected
+	Notes         []string
+	Assume        []string
+	Trusted       []string
+	Explain       string
+	XRef          []string // cross-reference output (never a verdict)
 }
 
 func NewCtx(prop, tier string, p *Prog) *Ctx {
@@ -271,23 +271,23 @@ func (c *Ctx) finish(verifDir, knownDir string, start time.Time, level string) i
 		"seed":        seed,
 		"level":       level,
 		"coverage": map[string]interface{}{
-			"explanation":         c.Explain,
-			"obligations":         len(c.Obls),
-			"discharged":          discharged,
-			"evaluations":         len(c.Obls),
-			"distinct_nontrivial": len(distinct),
-			"rule":                "one obligation per (rule, construct) pair resolved in the type-checked SSA program of /repo's working tree; distinct = distinct rule@construct keys; every obligation is non-trivial in that its rule inspected a resolved construct",
-			"samples":             samples,
-			"per_rule":            ruleCounts,
-			"instance_floors":     c.floors,
-			"functions_analysed":  fns,
+			"explanation":                     c.Explain,
+			"obligations":                     len(c.Obls),
+			"discharged":                      discharged,
+			"evaluations":                     len(c.Obls),
+			"distinct_nontrivial":             len(distinct),
+			"rule":                            "one obligation per (rule, construct) pair resolved in the type-checked SSA program of /repo's working tree; distinct = distinct rule@construct keys; every obligation is non-trivial in that its rule inspected a resolved construct",
+			"samples":                         samples,
+			"per_rule":                        ruleCounts,
+			"instance_floors":                 c.floors,
+			"functions_analysed":              fns,
 			"instructions_or_sites_inspected": c.Sites,
-			"packages_loaded":     loaded,
-			"checker_cmd":         "bin/check " + c.Prop + " --tier " + c.Tier,
-			"trusted_base":        append([]string{"go/types, go/ssa (golang.org/x/tools v0.29.0)", "the rule tables in /verif/checker/internal/rules"}, c.Trusted...),
-			"notes":               c.Notes,
-			"cross_reference":     c.XRef,
-			"exhaustive":          false,
+			"packages_loaded":                 loaded,
+			"checker_cmd":                     "bin/check " + c.Prop + " --tier " + c.Tier,
+			"trusted_base":                    append([]string{"go/types, go/ssa (golang.org/x/tools v0.29.0)", "the rule tables in /verif/checker/internal/rules"}, c.Trusted...),
+			"notes":                           c.Notes,
+			"cross_reference":                 c.XRef,
+			"exhaustive":                      false,
 		},
 		"assumptions": c.Assume,
 		"wall_s":      time.Since(start).Seconds(),
